@@ -20,14 +20,21 @@
 (*                  activation occ of that scope runs                      *)
 (*   st = "listen": waiting at catch event `at` (occ = matching state id)  *)
 (*   st = "err"   : left at gateway `at` after a no-flow error             *)
-(*   st = "dead"  : at task `at` after exit-mode / exhausted retries       *)
+(*   st = "errp"  : at task `at`, answered with an error that the engine   *)
+(*                  has not reported yet (mode, mn, pl hold the answer)    *)
+(*   st = "rereq" : at task `at`, about to be requested again (retry)      *)
 (* tag  = stack of inclusive-fork activations <<gateway, k>> the token     *)
 (*        descends from; inst = stack of sub-process activation numbers.   *)
 (***************************************************************************)
 EXTENDS BpmnProgram, Bags, FiniteSetsExt
 
 Tok(at, st, occ, via, tag, inst) ==
-  [at |-> at, st |-> st, occ |-> occ, via |-> via, tag |-> tag, inst |-> inst]
+  [at |-> at, st |-> st, occ |-> occ, via |-> via, tag |-> tag, inst |-> inst,
+   att |-> 0,        \* retries used by this token at its current task
+   mode |-> "",      \* pending error answer: err | skip | exit | retry
+   mn |-> 0,         \* retry count given with the pending error answer
+   pl |-> <<>>,      \* payload of the pending error answer
+   cands |-> {}]     \* payloads of concurrently issued first answers
 
 BagOf(S)      == SetToBag(S)
 Toks(s)       == BagToSet(s.tok)
@@ -44,6 +51,7 @@ InitState(i) ==
    ended   |-> [id \in {e \in NodesOfKind(i, "end") : Node(i, e).scope = ""} |-> 0],
    errs    |-> [id \in GatewayIds(i) |-> 0],
    nact    |-> 0,
+   nkill   |-> 0,         \* tokens stopped by an exit answer / exhausted retries
    started |-> FALSE,
    ceased  |-> FALSE]
 
@@ -210,6 +218,56 @@ SubExitMoves(s) ==
     : t \in {u \in Toks(s) : /\ u.st = "sub"
                              /\ \A v \in Toks(s) : u.occ \notin SeqRange(v.inst)} }
 
+(* Environment: answering a task request.  Only declared result names are    *)
+(* stored.                                                                   *)
+ReqToks(s) == {t \in Toks(s) : t.st = "req"}
+
+Store(i, n, vars, payload) ==
+  LET W == SeqRange(n.writes) \cap DOMAIN payload
+  IN  [v \in DOMAIN vars \cup W |-> IF v \in W THEN payload[v] ELSE vars[v]]
+
+AnswerOK(s, t, payload) ==
+  [s EXCEPT !.vars = Store(s.p, Node(s.p, t.at), @, payload),
+            !.tok  = AddToks(DelTok(@, t), {[t EXCEPT !.st = "in", !.occ = 0, !.att = 0, !.cands = {}]})]
+
+(* An answer carrying an error: the engine first reports it (error trace),   *)
+(* then continues (no handler, or skip: the results of that answer are       *)
+(* stored), stops the token (exit), or requests the same task again at most  *)
+(* the given number of additional times (retry).                             *)
+AnswerErr(s, t, payload, kind, n) ==
+  [s EXCEPT !.tok = AddToks(DelTok(@, t),
+       {[t EXCEPT !.st = "errp", !.mode = kind, !.mn = n, !.pl = payload, !.cands = {}]})]
+
+AnswerAny(s, t, payload, kind, n) ==
+  IF kind = "" THEN AnswerOK(s, t, payload) ELSE AnswerErr(s, t, payload, kind, n)
+
+TaskErrMoves(s) ==
+  { LET rest  == DelTok(s.tok, t)
+        clean == [t EXCEPT !.mode = "", !.mn = 0, !.pl = <<>>]
+    IN  CASE t.mode \in {"err", "skip"} ->
+               Mv(Lab("taskerr", t.at, 0),
+                  [s EXCEPT !.vars = Store(s.p, Node(s.p, t.at), @, t.pl),
+                            !.tok  = AddToks(rest, {[clean EXCEPT !.st = "in", !.occ = 0, !.att = 0]})])
+          [] t.mode = "retry" /\ t.att < t.mn ->
+               Mv(Lab("taskerr", t.at, 0),
+                  [s EXCEPT !.tok = AddToks(rest, {[clean EXCEPT !.st = "rereq", !.att = t.att + 1]})])
+          [] OTHER ->   \* exit, or retries exhausted: the token stops here
+               Mv(Lab("taskerr", t.at, 0), [s EXCEPT !.tok = rest, !.nkill = @ + 1])
+    : t \in {u \in Toks(s) : u.st = "errp"} }
+
+RereqMoves(s) ==
+  { LET k == s.reqn[t.at] + 1 IN
+    Mv(Lab("req", t.at, k),
+       [s EXCEPT !.reqn[t.at] = k,
+                 !.tok = AddToks(DelTok(@, t), {[t EXCEPT !.st = "req", !.occ = k]})])
+    : t \in {u \in Toks(s) : u.st = "rereq"} }
+
+Payloads(i, n) ==
+  LET W == SeqRange(n.writes)
+      D == UNION {SeqRange(DomOf(i)[w]) : w \in W}
+  IN  {f \in [W -> D] : \A w \in W : f[w] \in SeqRange(DomOf(i)[w])}
+
+
 (* Completion: all start events fired and no token remains.                  *)
 Live(s)     == {t \in Toks(s) : t.st \notin {"err", "dead"}}
 Complete(s) == s.started /\ Toks(s) = {}
@@ -217,7 +275,7 @@ CeaseMoves(s) ==
   IF Complete(s) /\ ~s.ceased THEN {Mv(Lab("cease", "", 0), [s EXCEPT !.ceased = TRUE])} ELSE {}
 
 Moves(s)    == LeaveMoves(s) \cup ArriveMoves(s) \cup AndMoves(s) \cup OrMoves(s)
-                 \cup SubExitMoves(s) \cup CeaseMoves(s)
+                 \cup SubExitMoves(s) \cup CeaseMoves(s) \cup TaskErrMoves(s) \cup RereqMoves(s)
 TauMoves(s) == {m \in Moves(s) : m.lab.ev = "tau"}
 ObsMoves(s) == {m \in Moves(s) : m.lab.ev # "tau"}
 
@@ -250,24 +308,6 @@ ExpandFrom(frontier, seen) ==
 Expand(s) == ExpandFrom({s}, {s})
 
 -----------------------------------------------------------------------------
-(* Environment: answering a task request.  Only declared result names are    *)
-(* stored.                                                                   *)
-ReqToks(s) == {t \in Toks(s) : t.st = "req"}
-
-Store(i, n, vars, payload) ==
-  LET W == SeqRange(n.writes) \cap DOMAIN payload
-  IN  [v \in DOMAIN vars \cup W |-> IF v \in W THEN payload[v] ELSE vars[v]]
-
-AnswerOK(s, t, payload) ==
-  [s EXCEPT !.vars = Store(s.p, Node(s.p, t.at), @, payload),
-            !.tok  = AddToks(DelTok(@, t), {[t EXCEPT !.st = "in", !.occ = 0]})]
-
-Payloads(i, n) ==
-  LET W == SeqRange(n.writes)
-      D == UNION {SeqRange(DomOf(i)[w]) : w \in W}
-  IN  {f \in [W -> D] : \A w \in W : f[w] \in SeqRange(DomOf(i)[w])}
-
------------------------------------------------------------------------------
 (* The specification proper (fine-grained): used for model checking the      *)
 (* token game itself over a program family.                                  *)
 VARIABLE s
@@ -282,7 +322,7 @@ TGSpec == TGInit /\ [][TGNext]_s /\ WF_s(TGNext)
 
 (* Properties of the game itself *)
 TypeOK == /\ s.p \in 1..NProg
-          /\ \A t \in Toks(s) : t.st \in {"flow", "in", "req", "join", "sub", "listen", "err", "dead"}
+          /\ \A t \in Toks(s) : t.st \in {"flow", "in", "req", "join", "sub", "listen", "err", "errp", "rereq"}
 
 \* never two unanswered requests with the same number; counters match
 RequestedOncePerToken ==
@@ -292,7 +332,7 @@ RequestedOncePerToken ==
 \* complete or holds only error/dead tokens: block-structured programs never
 \* deadlock
 Stuck(st) == Moves(st) = {} /\ ReqToks(st) = {}
-NoDeadToken == (Stuck(s) /\ Live(s) = Toks(s)) => (Live(s) = {})
+NoDeadToken == (Stuck(s) /\ Live(s) = Toks(s) /\ s.nkill = 0) => (Live(s) = {})
 CeasedOnlyWhenEmpty == s.ceased => Toks(s) = {}
 EventuallyQuiet == <>[](Moves(s) = {})
 =============================================================================
